@@ -47,10 +47,10 @@ prop('C05', level='proof', technique=_T_V + '; ' + _T_K,
      level_note=_NOTE_V + '; ' + _NOTE_K)
 prop('C06', level='proof', technique=_T_V + '; ' + _T_K,
      level_text='IpSlice / LaxIpSlice are proved (Verus) to return what the version-specific decoders return (both against the same spec function); every header type read from io::Read equals from_slice (Kani, complete over all byte strings of the header size for the fixed-size headers, bounded for the variable ones); the Ethernet / ether-type / IP doors are compared on bounded inputs (Kani).',
-     level_note=_NOTE_V + '; ' + _NOTE_K + '; the struct family (IpHeaders::from_slice*) is compared only on bounded inputs')
+     level_note=_NOTE_V + '; ' + _NOTE_K + '; the struct family (IpHeaders::from_slice*) is compared only on bounded inputs' + ' | ' + 'NOT proved, and violated on the unchanged tree, at recorded finding D6-lax: LaxIpSlice::from_slice on IPv4 inputs shorter than 20 bytes names a different first fault than LaxIpv4Slice (pinned by an existing unit test, so not repaired). The proof covers every other obligation; the evidence lists the excluded obligations by name (coverage.known_findings_excluded).')
 prop('C07', level='proof', technique=_T_V + '; ' + _T_K,
      level_text='Every length / content error of the decoders under contract is a Verus postcondition: layer, required_len, len exactly, len_source only a field that really limited the data, content errors carrying the offending value. Offsets that the whole-packet cursor derives from pointer differences cannot be expressed in Verus (slices have no addresses); they are decided by bounded Kani harnesses against an executable RFC reference (c07_offsets_*, p_*_boundary_*).',
-     level_note=_NOTE_V + '; ' + _NOTE_K)
+     level_note=_NOTE_V + '; ' + _NOTE_K + ' | ' + 'NOT proved, and violated on the unchanged tree, at recorded findings D5 (ArpPacketSlice::from_slice) and D9 (MacsecSlice::from_slice): len_source names a length field although the slice limited the data (both pinned by existing unit tests, so not repaired). The proof covers every other obligation; the evidence lists the excluded obligations by name.')
 prop('C08', level='proof', v=False, technique=_T_K,
      level_text='decode(encode(h)) == h and encode(decode(b)) == b as Kani contract harnesses on the real to_bytes/write/from_slice/read functions: complete (loop-free, every field value / every byte string of the header size) for the fixed-size headers and newtypes, bounded for the variable-size ones (IPv4 options, TCP options, AH ICV, IPv6 extension payloads, ARP addresses) with the bound stated per harness. No Verus contract: the encoders build arrays through ArrayVec/io::Write, which the Verus front end cannot take; CBMC is complete here because the domains are finite.',
      level_note=_NOTE_K)
@@ -68,7 +68,7 @@ prop('C12', level='proof', v=False, technique=_T_K,
      level_note=_NOTE_K)
 prop('C13', level='proof', v=False, technique=_T_K,
      level_text='TcpOptionsIterator::next as a one-step contract from any iterator state over the full 40-byte option area (complete: the area is bounded by the header format), element encode/decode identity complete per element kind; multi-element encodings bounded (<= 3 elements).',
-     level_note=_NOTE_K)
+     level_note=_NOTE_K + ' | ' + 'NOT established, and violated on the unchanged tree, at recorded finding D11: a SelectiveAcknowledgement element whose optional blocks have a gap does not round-trip (API decision, not repaired). Every other obligation is discharged; the evidence lists the excluded obligation by name.')
 prop('C14', level='proof', technique=_T_K + '; ' + _T_V,
      level_text='Every length-limited setter/constructor: Ok <=> the value fits, stored exactly, truthful error fields, object unchanged on Err: Kani harnesses complete over all usize lengths (fabricated slices for the huge ones) and Verus postconditions on the checksum-computing constructors (UDP/TCP payload limits).',
      level_note=_NOTE_K + '; ' + _NOTE_V)
